@@ -36,4 +36,25 @@ CHECKS = {
         "text": "Overloaded and modest systems are solved with drawn vtol/itol/maxiter. The outcome must be a table, RuntimeError or ValueError; a table must be finite, reproduce under one more evaluation of every law at the requested tolerance, show no inverted/amplified passive series element, and must not have been first met after sweep maxiter (sweeps counted by wrapping the propagation routine). When my reference solver finds a steady state with all series drops <= 10 %, solve() with defaults must return it. The 'finds' clause is liveness-flavoured and only sampled.",
         "note": "Trusted base: reference solver in vlib/refmodel.py as existence witness. Known findings F1, F8 (Rectifier rs list -> TypeError), F17 (mux start-up transient trips a polarity guard) are excluded by construction and probed.",
     },
+    "C04": {
+        "level": "exploration",
+        "ref": "DESIGN.md section 2, C04",
+        "technique": "property-based testing: expected dead set computed from the spec (reference liveness rule) vs exact-zero rows and exact sleep currents (Hypothesis)",
+        "text": "Generated trees with 2-4 phases, phase-inactive sources/converters/regulators/switches/mux and 0 V sources at drawn positions. A reference rule computes from the spec alone which components have a dead supply in each phase; those rows must be exactly zero in all six electrical columns, an inactive element on a live supply must draw exactly its sleep current and dissipate iis*|Vin|, and live loads must draw current. Exploration over positions/phase assignments/kinds; exact comparisons (no tolerance) because the code short-circuits.",
+        "note": "Assumes no live element drops its whole input (modest-drop generator). Known finding F18 (currents <= 1e-8 A, numpy's default atol, on a dead rail) excluded by flooring generated small currents at 1e-7 A and probed.",
+    },
+    "C05": {
+        "level": "exploration",
+        "ref": "DESIGN.md section 2, C05",
+        "technique": "property-based testing with exhaustive enumeration of all 2^k live/dead input patterns per generated mux system (one load phase per pattern), reference selection rule + row checker (Hypothesis)",
+        "text": "A dedicated generator builds a PMux with 1-4 inputs behind individual chains and gives the system one phase per live/dead pattern, so every pattern of every generated mux is solved. The selected input expected from the spec must be the one the table shows: Vin, Parent/Rail in and Domain name it, Vout uses rs[selected], only the selected input carries the mux current, no live input means an all-zero mux and subtree.",
+        "note": "Liveness by the C04 rule; Parent label unchecked when no input is live; Domain only with >= 2 sources. About 20 % of generated systems are unsolvable in some phase (input voltages differ) and are skipped, counted in the evidence.",
+    },
+    "C06": {
+        "level": "exploration",
+        "ref": "DESIGN.md section 2, C06",
+        "technique": "property-based testing: per-phase row checker with phase-specific reference laws + metamorphic relations (single phase vs all phases, no-configuration and load-table-only systems vs phase-less rebuilds, rail- vs name-addressed configuration) (Hypothesis)",
+        "text": "For generated phase sets and per-component phase configurations each phase's rows must satisfy the reference law for that phase (table value, sleep value, or constructor value for loads; active lists for sources/regulators/switches/mux). solve(phase=p) must equal the rows of phase p cell for cell, unknown phases must raise ValueError, and systems whose configuration is absent or load-tables-only must equal phase-less rebuilds.",
+        "note": "Only well-typed configurations are generated (I10). Tolerance as C01 for laws, exact for the single-phase comparison, 3e-5 relative between two independently converged solutions.",
+    },
 }
